@@ -314,6 +314,20 @@ def term(o, t, last=False):
 
 # ---- random abstract grammars ----------------------------------------------------------------
 ALPHA = [97, 98, 65, 90, 48, 32, 10, 9, 34, 39, 92, 93, 91, 123, 125, 0xE9, 0x20AC, 0x1F600, 0x2190, 96, 45, 94, 47, 7]
+SPECIAL = [0x212A, 0x17F, 0xDF, 0x3A3, 0x3C2, 0x1C5, 0x2163, 0x2173, 0x1E9E, 0xB5]     # runes with unusual case orbits
+
+
+def rand_rune(rng):
+    """mostly the characters that need care in the concrete syntax, but any printable ASCII character and the runes
+    whose case orbit leaves their block can occur"""
+    c = rng.random()
+    if c < 0.6:
+        return rng.choice(ALPHA)
+    if c < 0.9:
+        return rng.randint(33, 126)
+    return rng.choice(SPECIAL)
+
+
 IDENTS = ["A", "B1", "_c", "Rule_2", "été", "x", "Expr", "T9", "Ωm", "a_b"]
 LABELS = ["a", "b2", "_l", "val", "ü"]
 
@@ -326,7 +340,7 @@ def rand_expr(rng, d, names):
                         "State", "AndCode", "NotCode", "Throw", "Recover"])
     if k == "Lit":
         n = rng.choice([0, 1, 1, 2, 3])
-        return dict(k="Lit", s=[rng.choice(ALPHA) for _ in range(n)], ic=rng.random() < 0.3)
+        return dict(k="Lit", s=[rand_rune(rng) for _ in range(n)], ic=rng.random() < 0.3)
     if k == "Class":
         ms = []
         if rng.random() < 0.15:       # a character, a range, a dash right after the range, more characters: [_a-c-e]
@@ -334,7 +348,7 @@ def rand_expr(rng, d, names):
         for _ in range(rng.choice([0, 1, 2, 3, 4, 5])):
             c = rng.random()
             if c < 0.5:
-                ms.append(("c", rng.choice(ALPHA)))
+                ms.append(("c", rand_rune(rng)))
             elif c < 0.75:
                 a, b = sorted([rng.choice([97, 98, 65, 90, 48, 0xE9]), rng.choice([99, 122, 90, 57, 0x20AC])])
                 ms.append(("r", a, b))
